@@ -305,7 +305,8 @@ func evmField(o *txlib.Obs, err error, failed bool) string {
 			return "skip"
 		}
 	}
-	return fmt.Sprintf("f~%d~%s~%d~%s", o.GasLeft, vmErrClass(o.Err), o.Refund, obsStr(o))
+	// the EVM's effect on the refund counter is what it ADDED (AddRefund); the counter's lifetime is the StateDB's business
+	return fmt.Sprintf("f~%d~%s~%d~%s", o.GasLeft, vmErrClass(o.Err), o.Refund-o.RefundIn, obsStr(o))
 }
 
 // ---------------------------------------------------------------------------------------------------------------------
@@ -445,6 +446,9 @@ func judge(s *spec, m txg, res *execResult, label string) {
 		refund := consumed - res.used
 		if res.used > consumed || refund > consumed/2 || refund > o.Refund {
 			viol("refund-above-cap", "refund-cap", fmt.Sprintf("consumed %d used %d refund %d counter %d", consumed, res.used, refund, o.Refund))
+		}
+		if o.RefundIn != 0 {
+			viol("refund-counter-carried-over", "refund-counter-not-reset-between-transactions", fmt.Sprintf("refund counter is %d when the transaction starts", o.RefundIn))
 		}
 		if consumed < ig {
 			viol("consumed-below-intrinsic", "consumed<intrinsic", fmt.Sprintf("consumed %d intrinsic %d", consumed, ig))
@@ -1358,7 +1362,7 @@ func oneInsert(r *hx.Rng, rules txlib.Rules, idx int) {
 		}
 		return tx
 	}
-	mode := idx % 6
+	mode := idx % 7
 	var bad *types.Transaction
 	switch mode {
 	case 1:
@@ -1375,7 +1379,14 @@ func oneInsert(r *hx.Rng, rules txlib.Rules, idx int) {
 		b.AddTx(mk(0, 21000+uint64(r.Intn(100)), 1+int64(r.Intn(5)), big.NewInt(int64(r.Intn(1000)))))
 	})
 	blk := good[0]
-	label := []string{"valid", "nonce-high", "below-intrinsic", "cannot-pay-value", "above-block-gas", "header-gasused+1"}[mode]
+	label := []string{"valid", "nonce-high", "below-intrinsic", "cannot-pay-value", "above-block-gas", "header-gasused+1", "empty-block-claims-gas"}[mode]
+	if mode == 6 {
+		// a block WITHOUT transactions whose header claims gasUsed > 0
+		empty, _ := core.GenerateChain(context.Background(), rules.Cfg, genesis, engine, db, 1, func(i int, b *core.BlockGen) { b.SetCoinbase(cbAddr) })
+		h := empty[0].Header()
+		h.GasUsed = uint64(1 + r.Intn(100000))
+		blk = empty[0].WithSeal(h)
+	}
 	if bad != nil {
 		h := blk.Header()
 		blk = types.NewBlock(h, append(types.Transactions{}, append(blk.Transactions(), bad)...), nil, nil)
@@ -1411,9 +1422,9 @@ func main() {
 	}
 	run.Watch(120*time.Second, 3<<30, func(cur string) string { return "watchdog:" + strings.SplitN(cur, " ", 3)[0] })
 	r := hx.NewRng(run.Seed)
-	nMsg, nBlk, nIg, nGp, nIns := 8000, 1200, 300, 400, 6
+	nMsg, nBlk, nIg, nGp, nIns, nFs := 8000, 1200, 300, 400, 7, 30
 	if run.Thorough() {
-		nMsg, nBlk, nIg, nGp, nIns = 40000, 5000, 3000, 4000, 24
+		nMsg, nBlk, nIg, nGp, nIns, nFs = 40000, 5000, 3000, 4000, 28, 300
 	}
 	runIntrinsic(r.Fork(1), nIg)
 	runGasPool(r.Fork(2), nGp)
@@ -1421,5 +1432,6 @@ func main() {
 	runMsgCases(r.Fork(4), nMsg)
 	runBlocks(r.Fork(5), nBlk)
 	runInsertChain(r.Fork(6), nIns)
+	runFastSync(r.Fork(7), nFs)
 	run.Finish()
 }
